@@ -43,7 +43,10 @@ fn component(rng: &mut Rng, i: usize) -> String {
 }
 
 fn gen_name(rng: &mut Rng) -> String {
-    match rng.below(16) {
+    match rng.below(19) {
+        16 => "link_out/existing".into(),
+        17 => "filelink".into(),
+        18 => format!("{}/inner{}", "N".repeat(255), rng.below(9)),
         0 => "{SB}/canary/pwned-abs".into(),
         1 => "../canary/pwned-rel".into(),
         2 => "dir/../../canary/pwned-mid".into(),
@@ -272,6 +275,8 @@ pub fn run_case(ctx: &mut Ctx, c: &Case) {
     }
     if c.symlink_in_out {
         let _ = std::os::unix::fs::symlink("../canary", out.join("link_out"));
+        // and a symlink to an existing file outside
+        let _ = std::os::unix::fs::symlink("../canary/existing", out.join("filelink"));
     }
     if !c.absolute_out && c.out_style % 4 == 3 {
         let _ = std::fs::create_dir_all(sb.join("x"));
@@ -281,6 +286,12 @@ pub fn run_case(ctx: &mut Ctx, c: &Case) {
     for n in contents.keys() {
         if n.starts_with('/') {
             ctx.count("musthit:absolute_name");
+        }
+        if c.symlink_in_out && (n == "link_out/existing" || n == "filelink") {
+            ctx.count("musthit:member_reaching_an_existing_outside_file_through_a_symlink");
+        }
+        if n.split('/').any(|x| x.len() == 255) {
+            ctx.count("musthit:component_of_exactly_255_bytes");
         }
         let comps: Vec<&str> = n.split('/').collect();
         if comps.iter().skip(1).any(|x| *x == "..") && comps.first() != Some(&"..") {
@@ -373,7 +384,7 @@ pub fn run_case(ctx: &mut Ctx, c: &Case) {
     let conflict = |v: &Vec<String>| all_norm.iter().filter(|o| ***o == *v).count() > 1 || all_norm.iter().any(|o| o.len() != v.len() && (o.starts_with(v) || v.starts_with(o)));
     let any_conflict = all_norm.iter().any(|v| conflict(v));
     // a member whose path goes through the pre-existing symlink is refused by design (containment)
-    let through_symlink = |v: &Vec<String>| c.symlink_in_out && v.first().is_some_and(|x| x == "link_out");
+    let through_symlink = |v: &Vec<String>| c.symlink_in_out && v.first().is_some_and(|x| x == "link_out" || x == "filelink");
     let symlink_involved = all_norm.iter().any(|v| through_symlink(v));
     if os_limits_ok && !any_conflict && !symlink_involved {
         ctx.count("archives_subject_to_must_extract");
